@@ -157,6 +157,7 @@ func vFanOut(enc *json.Encoder, base int, hstart int, srv *ircserver.IRCServer, 
 		} else {
 			rec.Out = vProjectReplies(msgs)
 			rec.Lines = vCheckLines(msgs)
+			rec.Rids = vCheckRids(msgs, e.Id)
 		}
 		enc.Encode(rec)
 		n++
